@@ -170,10 +170,11 @@ type Obs struct {
 }
 
 type RunOut struct {
-	Obs    []Obs    `json:"obs"`
-	Writes int      `json:"writes"`
-	Trace  []string `json:"trace,omitempty"`
-	Marks  []int    `json:"marks"` // write count before each delivery step
+	Obs        []Obs    `json:"obs"`
+	Writes     int      `json:"writes"`
+	BootWrites int      `json:"boot_writes"` // physical writes issued by the boot / recovery path
+	Trace      []string `json:"trace,omitempty"`
+	Marks      []int    `json:"marks"` // write count before each delivery step
 }
 
 func observe(tree *BuiltTree, step int) Obs {
@@ -245,12 +246,17 @@ func childRun(treeFile, planFile, outFile string) {
 	mustRead(treeFile, &tree)
 	mustRead(planFile, &plan)
 	crash.InstallFromEnv()
+	if plan.Restart {
+		crash.Arm() // the writes of the recovery path itself are crash points too (nested crash)
+	}
 	if err := node.Boot(c05Forks, true); err != nil {
 		panic(err)
 	}
+	crash.Disarm()
 	chain := core.GetBlockChain()
 	pool := service.GetTransactionPool()
 	out := RunOut{}
+	out.BootWrites = crash.Count()
 	if !plan.Restart {
 		for _, t := range tree.Txs {
 			raw, _ := hex.DecodeString(t.Raw)
